@@ -30,6 +30,22 @@ class Still(Renderable):
         return Frame(0, 1, Size(*self._sz), self._out)
 
 
+class Sized(Renderable):
+    """A still renderable whose output depends on the render size it is asked for: `#` cells."""
+
+    def __init__(self, size):
+        super().__init__(2, 1)  # two frames: RenderIterator wants an animated renderable
+        self._sz = size
+
+    def _get_render_size_(self):
+        return Size(*self._sz)
+
+    def _render_(self, render_data, render_args):
+        d = render_data[Renderable]
+        w, h = d.size
+        return Frame(d.frame_offset, 1, Size(w, h), "\n".join(["#" * w] * h))
+
+
 def make_padding(p, fill):
     if p["kind"] == "aligned":
         return AlignedPadding(p["W"], p["H"], HAlign(p["ha"]), VAlign(p["va"]), fill)
@@ -73,7 +89,27 @@ def run_case(case):
                 assert pad.resolve(ts) is pad
             res["relative_raises"] = rel_raises
             via = case.get("via", "pad")
-            if via == "renderable":
+            if via == "iterator":
+                # a frame of a RenderIterator whose render size was changed with set_render_size()
+                # BEFORE set_padding(): the padding applies to the size the frames are rendered at
+                from term_image.render import RenderIterator
+                own = case.get("own_size", [1, 1])
+                it = RenderIterator(Sized(own))
+                try:
+                    if case.get("order", 0) == 0:
+                        it.set_render_size(Size(w, h))
+                        it.set_padding(pad)
+                    else:
+                        it.set_padding(pad)
+                        it.set_render_size(Size(w, h))
+                    frame = next(it)
+                finally:
+                    it.close()
+                R = "\n".join(["#" * w] * h)
+                res["inner"] = R
+                res["out"] = frame.render_output
+                res["frame_size"] = list(frame.render_size)
+            elif via == "renderable":
                 r = Still(R, (w, h))
                 frame = r.render(RenderArgs(Still), padding=pad)
                 res["out"] = frame.render_output
